@@ -553,6 +553,13 @@ func (vc *VC) run(fn *ssa.Function, args []Val, freeVars []Val, st *State, reach
 		}
 		res.C = append(res.C, vc.define(fr.prefix+".ret", srt, t))
 	}
+	if fr.top {
+		for _, c := range res.C {
+			if strings.HasPrefix(c, "|") {
+				vc.inputs = append(vc.inputs, c)
+			}
+		}
+	}
 	fr.results = res
 	if fr.top {
 		fr.checkExit(res, out, exitReach)
@@ -735,9 +742,11 @@ func (fr *Frame) enterLoop(li *loopInfo, cur *State, rch Term) *State {
 		for fam := range vc.eng.famSorts {
 			vc.havocFam(st, fam)
 		}
+		var gs []string
 		for g := range ghostSorts {
-			vc.havocGhost(st, g)
+			gs = append(gs, g)
 		}
+		vc.havocGhostSet(st, gs)
 		vc.note("loop %d of %s: unknown write set, everything havocked", li.ord, fr.fn)
 	} else {
 		var fams []string
@@ -745,14 +754,16 @@ func (fr *Frame) enterLoop(li *loopInfo, cur *State, rch Term) *State {
 			fams = append(fams, fam)
 		}
 		sort.Strings(fams)
+		var gs []string
 		for _, fam := range fams {
 			if _, isGhost := ghostSorts[fam]; isGhost {
-				vc.havocGhost(st, fam)
+				gs = append(gs, fam)
 			} else {
 				vc.regFam(fam, ms.fams[fam])
 				vc.havocFam(st, fam)
 			}
 		}
+		vc.havocGhostSet(st, gs)
 	}
 	// allocation counter only grows
 	if ms.all || ms.allocs {
@@ -799,6 +810,13 @@ func (vc *VC) havocGhost(st *State, g string) {
 	srt := ghostSorts[g]
 	old := vc.get(st, g)
 	n := vc.fresh(g+"~h", srt)
+	switch g {
+	case "#evk", "#eva", "#evb", "#evl", "#evc":
+		// the event log is append-only (#evn must be havocked after the arrays)
+		vc.assume(fmt.Sprintf("(forall ((k Int)) (! (=> (< k %s) (= (select %s k) (select %s k))) :pattern ((select %s k))))", vc.get(st, "#evn"), n, old, n))
+	case "#out":
+		vc.assume(fmt.Sprintf("(forall ((k Int)) (! (=> (< k %s) (= (select %s k) (select %s k))) :pattern ((select %s k))))", vc.get(st, "#outlen"), n, old, n))
+	}
 	switch g {
 	case "#outlen", "#wfails", "#evn", "#inpos":
 		vc.assume(sx("<=", old, n))
@@ -1002,4 +1020,23 @@ func rangeBound(phi *ssa.Phi) ssa.Value {
 		}
 	}
 	return nil
+}
+
+// havocGhostSet havocs the given ghost variables, arrays before the counters
+// that delimit their append-only prefix.
+func (vc *VC) havocGhostSet(st *State, names []string) {
+	sort.Slice(names, func(i, j int) bool {
+		ai := strings.HasPrefix(ghostSorts[names[i]], "(Array")
+		aj := strings.HasPrefix(ghostSorts[names[j]], "(Array")
+		if ai != aj {
+			return ai
+		}
+		return names[i] < names[j]
+	})
+	for _, g := range names {
+		if g == "$alloc" {
+			continue
+		}
+		vc.havocGhost(st, g)
+	}
 }
